@@ -14,11 +14,15 @@ import SpVerif.Drive.Serial
 import SpVerif.Drive.Defaults
 import SpVerif.Drive.Annot
 import SpVerif.Drive.Merge
+import SpVerif.Drive.Layers
+import SpVerif.Drive.Post
+import SpVerif.Drive.History
+import SpVerif.Drive.ConfigLoop
 open Lean SpVerif.Drive
 
 /-- every op of every per-property driver module: add `++ <module>Ops` here -/
 def allOps : List (String × (Json → R Json)) :=
-  namingOps ++ conflictsOps ++ replaceOps ++ docScanOps ++ engineOps ++ callablesOps ++ fieldsOps ++ subclassOps ++ serialOps ++ defaultsOps ++ annotOps ++ mergeOps
+  namingOps ++ conflictsOps ++ replaceOps ++ docScanOps ++ engineOps ++ callablesOps ++ fieldsOps ++ subclassOps ++ serialOps ++ defaultsOps ++ annotOps ++ mergeOps ++ layersOps ++ postOps ++ historyOps ++ configLoopOps
 
 def dispatch (op : String) (c : Json) : R Json :=
   match allOps.lookup op with
